@@ -16,8 +16,14 @@ def evaluate(ck, data, rules, docg):
                 if prev and not r["wsadj"] and blame is None:
                     blame = r["rule"]
                 prev = r["wsadj"]
+        if o.get("init_shape") is False:
+            ck.broken_tie("T2:reader-shape", "%s: the list the real reader returned does not have the shape ShapeProofs.read_shape proves of the model's" % T.tag(o))
+        if o.get("end_shape") is False:
+            blame = T.blame(o, "shape", "init_shape") or blame
+        elif o.get("end_glue") is False and o.get("init_glue"):
+            blame = T.blame(o, "glue", "init_glue") or blame
         if o.get("reread_rejected"):
-            ck.violation("fixed-text-rejected:" + ",".join(sorted({r["rule"] for r in o["records"] if not r.get("wf", True)})[:2]), "%s: the text --fix produced is rejected when read back: %s" % (T.tag(o), o["reread_rejected"]), T.rep(o, oracle="reread"))
+            ck.violation("fixed-text-rejected:" + (",".join(sorted({r["rule"] for r in o["records"] if not r.get("wf", True)})[:2]) or blame or "@" + o["rel"]), "%s: the text --fix produced is rejected when read back: %s" % (T.tag(o), o["reread_rejected"]), T.rep(o, oracle="reread"))
             continue
         d = o.get("reread_diff")
         if d:
@@ -30,7 +36,7 @@ def evaluate(ck, data, rules, docg):
             elif d["memory"] and d["memory"][0].endswith("parser.whitespace") and d["memory"][1] == "":
                 sig = "empty-whitespace-token"
             who = blame or ("@" + o["rel"])
-            ck.violation("reread-differs:%s:%s" % (sig, who), "%s: parsing the emitted text gives %r where the in-memory model has %r (token %d)%s" % (T.tag(o), d["reread"], d["memory"], d["index"], "; first rule leaving two adjacent whitespace tokens: " + blame if blame else ""), T.rep(o, oracle="reread", detail=d))
+            ck.violation("reread-differs:%s:%s" % (sig, who), "%s: parsing the emitted text gives %r where the in-memory model has %r (token %d)%s" % (T.tag(o), d["reread"], d["memory"], d["index"], "; first rule application after which the model lost the reader shape / glued code tokens / left adjacent whitespace tokens: " + blame if blame else ""), T.rep(o, oracle="reread", detail=d))
         elif o.get("report_diff"):
             rd = o["report_diff"]
             site = (rd["only_fresh"] or rd["only_after_fix"])[0][0]
@@ -43,7 +49,7 @@ def evaluate(ck, data, rules, docg):
 
 def run(tier):
     return T.run_prop("C08", tier, "translation_validation", evaluate,
-                      "every observed fix run of the shared trace: the emitted text is parsed again with the real parser and compared token by token (class, value, indent level) with the in-memory model; the all-phases report of the in-memory rule list is compared with that of a fresh rule list on the re-read file; the extracted checker names the first rule that leaves two adjacent whitespace tokens",
+                      "every observed fix run of the shared trace: the emitted text is parsed again with the real parser and compared token by token (class, value, indent level) with the in-memory model; the all-phases report of the in-memory rule list is compared with that of a fresh rule list on the re-read file; the extracted checker evaluates the reader shape (C08_reread_requires_shape), glued code tokens and adjacent whitespace tokens after every rule application and names the application after which the model stopped being something the reader can return",
                       ["indent levels are compared through the real set_token_indent (258 lines of table-driven state, not modelled)", "the lexical half rests on C04's emit_read / tokenizer theorems; this check is the differential for the part that is not modelled"])
 
 
